@@ -222,7 +222,22 @@ def t_tree_case(t, system=None, licensed=None, max_leaves=6, tok_exclude='', ja_
         toks = [gen_tok.t_token_variant(t, 'ja' if use_ja_tokens else 'en', tok_exclude) for _ in range(n)]
     else:
         toks = [(gen_tok.t_token_ja if use_ja_tokens else gen_tok.t_token_en)(t, tok_exclude) for _ in range(n)]
-    return {'system': system, 'licensed': bool(licensed), 'deriv': deriv_json(d), 'tokens': toks}
+    case = {'system': system, 'licensed': bool(licensed), 'deriv': deriv_json(d), 'tokens': toks}
+    # results of a multi-process parse reach the caller through pickle; some callers copy them
+    origin = ('built', 'built', 'pickled', 'deep-copied')[t.tail(5) % 4]
+    if origin != 'built':
+        case['origin'] = origin
+    return case
+
+
+def _via(obj, origin):
+    if origin == 'pickled':
+        import pickle
+        return pickle.loads(pickle.dumps(obj))
+    if origin == 'deep-copied':
+        import copy
+        return copy.deepcopy(obj)
+    return obj
 
 
 def tree_of_case(case, tokens=None):
@@ -230,14 +245,16 @@ def tree_of_case(case, tokens=None):
     from vlib import gen_tok
     if tokens is None:
         tokens = [gen_tok.make_token(tk) for tk in case['tokens']]
+        return _via(build_tree(deriv_from_json(case['deriv']), tokens), case.get('origin'))
     return build_tree(deriv_from_json(case['deriv']), tokens)
 
 
 def sentence_trees(sent):
-    """the trees of one n-best list, sharing their Token objects as parser output does"""
+    """the trees of one n-best list, sharing their Token objects as parser output does (also after a trip
+    through pickle: the list travels as one object)"""
     from vlib import gen_tok
     tokens = [gen_tok.make_token(tk) for tk in sent[0]['tokens']]
-    return [tree_of_case(tc, tokens) for tc in sent]
+    return _via([tree_of_case(tc, tokens) for tc in sent], sent[0].get('origin'))
 
 
 def t_derivation_with_label(t, idx, label, max_leaves=5):
